@@ -1090,7 +1090,14 @@ def check_c02(pid, tier, build, props):
         problems.append("correspondence implementation = Model/Pipe.v broken: %d of %d graphs differ, first: %r%s"
                         % (pr["mismatch_count"], pr["graphs"], pr["mismatches"][:1],
                            (" harness: %r" % pr["harness_errors"][:1]) if pr["harness_errors"] else ""))
+    b5 = None
+    if tier == "thorough":
+        from . import bounded5
+        b5 = bounded5.run()
+        if not b5["ok"]:
+            problems.append("bounded theorem for 5 blocks does not check: %r" % (b5.get("failed") or b5.get("output"),))
     coverage = {
+        "bounded_theorem_5_blocks": b5 if b5 is not None else "thorough tier only (26 sharded coqc runs over all 443 400 graphs)",
         "pipeline_model": dict(piperun.summary(pr), holds=tie_ok),
         "evaluations": total,
         "distinct_nontrivial": total - sn["distribution"]["n"].get("1", 0),
@@ -1105,7 +1112,8 @@ def check_c02(pid, tier, build, props):
                           exhaustive5=extra - len(real)),
         "exceptions": len(sn["exceptions"]) + sum(len(f) for _, f in res),
         "component_theorems": props["theorems"],
-        "obligations_total": nth + 1, "discharged_total": (nth if props["ok"] else 0) + (1 if tie_ok else 0),
+        "obligations_total": nth + 1 + (1 if b5 is not None else 0),
+        "discharged_total": (nth if props["ok"] else 0) + (1 if tie_ok else 0) + (1 if b5 and b5["ok"] else 0),
         "explanation": "The universal statement (forall closed g, restructure g terminates without raising) is NOT "
                        "proved: it needs a total-correctness proof of the whole pipeline. Decided by running the "
                        "implementation on the enumerated space (exhaustive up to the stated bound). Proved in Coq "
